@@ -166,6 +166,15 @@ func runWrap(o *hx.Out, d wrapDesc, origin string) {
 	case "createit":
 		vv := min(v, 3)
 		w := &coordinator.CreateIteratorRequest{ShardIDs: gids(r, vv), Measurement: gmeasurement(r, vv), Opt: gopt(r, vv)}
+		// IteratorOptions.MarshalBinary walks the GroupBy MAP: with two or more keys the byte order
+		// differs from call to call, and this case compares bytes of two separate calls (the
+		// sub-encoder's output given to the model, and the wrapper's own call). Keep one key.
+		if len(w.Opt.GroupBy) > 1 {
+			for k := range w.Opt.GroupBy {
+				w.Opt.GroupBy = map[string]struct{}{k: {}}
+				break
+			}
+		}
 		if v != 0 {
 			w.SpanContext = tracing.SpanContext{TraceID: gu64(r, vv), SpanID: gu64(r, vv)}
 		}
